@@ -195,15 +195,55 @@ def gen_eqpt(rng, base):
                     {'roadm-path-impairments-id': 0, 'roadm-express-path': bands()},
                     {'roadm-path-impairments-id': 1, 'roadm-add-path': bands()},
                     {'roadm-path-impairments-id': 2, 'roadm-drop-path': bands()}]}
-    eq['Roadm'] = eq['Roadm'] + [plain, detailed]
+    # several profiles per path type, ids in arbitrary order (0 included, often NOT the first of its type)
+    ids = rng.sample(range(0, 12), 7)
+    if 0 not in ids:
+        ids[rng.randrange(7)] = 0
+    kinds = ['roadm-express-path'] * 3 + ['roadm-add-path'] * 2 + ['roadm-drop-path'] * 2
+    profs = [{'roadm-path-impairments-id': i, k: bands()} for i, k in zip(ids, kinds)]
+    rng.shuffle(profs)
+    multi = {'type_variety': 'r_multi', 'target_pch_out_db': -20, 'add_drop_osnr': 38, 'pmd': 9e-12, 'pdl': 2.5,
+             'restrictions': {'preamp_variety_list': [], 'booster_variety_list': []}, 'roadm-path-impairments': profs}
+    eq['Roadm'] = eq['Roadm'] + [plain, detailed, multi]
     return eq
+
+
+ROADM_VARIETIES = ['r_plain', 'r_detailed', 'default', 'r_multi', 'r_multi']
+
+
+def bind_degrees(rng, eq, els, conns):
+    """per_degree_impairments for the crossing of every multi-profile ROADM of the line: the (from, to) degree pair of the path is
+    bound to one of the profiles of the right path type (id 0 as often as any other); the degree names are those the
+    auto-design will give to the inserted amplifiers"""
+    by = {e['uid']: e for e in els}
+    nxt = {a: b for a, b in conns}
+    prv = {b: a for a, b in conns}
+
+    def long(uid):
+        e = by[uid]
+        return e['type'] == 'Fiber' and (e['params']['length'] * (1 if e['params']['length_units'] == 'km' else 1e-3)) > 150
+    for e in els:
+        if e['type'] != 'Roadm' or e.get('type_variety') not in ('r_multi', 'r_detailed') or rng.random() < 0.25:
+            continue
+        a, b = prv[e['uid']], nxt[e['uid']]
+        if by[a]['type'] == 'Transceiver' or by[b]['type'] == 'Transceiver':
+            continue        # in a one-way line set_roadm_internal_paths accepts bindings of express crossings only
+        if (by[a]['type'] != 'Transceiver' and long(a)) or (by[b]['type'] != 'Transceiver' and long(b)):
+            continue        # the neighbour will be split by the design: the degree names are not known in advance
+        frm = a if by[a]['type'] == 'Transceiver' else f"Edfa_preamp_{e['uid']}_from_{a}"
+        to = b if by[b]['type'] == 'Transceiver' else f"Edfa_booster_{e['uid']}_to_{b}"
+        pt = 'add' if by[a]['type'] == 'Transceiver' else ('drop' if by[b]['type'] == 'Transceiver' else 'express')
+        rd = next(r for r in eq['Roadm'] if r.get('type_variety') == e['type_variety'])
+        cands = [pf['roadm-path-impairments-id'] for pf in rd['roadm-path-impairments'] if f'roadm-{pt}-path' in pf]
+        pick = 0 if 0 in cands and rng.random() < 0.5 else rng.choice(cands)
+        e['params'] = {'per_degree_impairments': [{'from_degree': frm, 'to_degree': to, 'impairment_id': pick}]}
 
 
 def gen_path_case(rng, base_eq, max_units=None):
     eq = gen_eqpt(rng, base_eq)
     spec = gen_spectrum(rng, 191.4e12, 196.0e12, nmax=4)
     spec['p'] = [1e-3 for _ in spec['f']]
-    nseg = rng.choice([1, 1, 2, 3]) if max_units is None else 1
+    nseg = rng.choice([1, 2, 2, 3]) if max_units is None else 1
     els, conns = [], []
 
     def add(uid, typ, **kw):
@@ -214,7 +254,7 @@ def gen_path_case(rng, base_eq, max_units=None):
     prev = 'trx0'
     for k in range(nseg):
         r = f'roadm{k}'
-        add(r, 'Roadm', type_variety=rng.choice(['r_plain', 'r_detailed', 'default']))
+        add(r, 'Roadm', type_variety=rng.choice(ROADM_VARIETIES))
         conns.append((prev, r))
         prev = r
         ns = rng.randint(1, 4) if max_units is None else rng.randint(2, max_units)
@@ -239,13 +279,14 @@ def gen_path_case(rng, base_eq, max_units=None):
                 conns.append((prev, fu))
                 prev = fu
     r = f'roadm{nseg}'
-    add(r, 'Roadm', type_variety=rng.choice(['r_plain', 'r_detailed', 'default']))
+    add(r, 'Roadm', type_variety=rng.choice(ROADM_VARIETIES))
     conns.append((prev, r))
     add('trx1', 'Transceiver')
     conns.append((r, 'trx1'))
+    bind_degrees(rng, eq, els, conns)
     topo = {'elements': els, 'connections': [{'from_node': a, 'to_node': b} for a, b in conns]}
     return {'kind': 'path' if max_units is None else 'perm', 'eqpt_overrides': {'Edfa': {a['type_variety']: [a['pmd'], a['pdl']] for a in eq['Edfa']},
-                                                                              'Roadm': eq['Roadm'][-2:]},
+                                                                              'Roadm': eq['Roadm'][-3:]},
             'topology': topo, 'spectrum': spec, 'perm_seed': rng.randint(0, 10 ** 9)}
 
 
@@ -742,11 +783,16 @@ def build_path(case):
     return eq, dijkstra_path(network, nodes['trx0'], nodes['trx1'])
 
 
-def roadm_bands(eq, case, variety, path_type):
+def roadm_bands(eq, case, variety, path_type, bound_id=None):
+    """impairment table CONFIGURED for a crossing: the profile bound to the (from, to) degree pair by per_degree_impairments, else
+    the first profile of the path type in the library, else the global pmd / pdl of the variety"""
     rd = next(r for r in eq['Roadm'] if r.get('type_variety', 'default') == variety)
     key = {'express': 'roadm-express-path', 'add': 'roadm-add-path', 'drop': 'roadm-drop-path'}[path_type]
     for prof in rd.get('roadm-path-impairments', []):
-        if key in prof:
+        if bound_id is not None and prof['roadm-path-impairments-id'] == bound_id:
+            return next(v for k, v in prof.items() if k != 'roadm-path-impairments-id')
+    for prof in rd.get('roadm-path-impairments', []):
+        if bound_id is None and key in prof:
             return prof[key]
     return [{'frequency-range': {'lower-frequency': None, 'upper-frequency': None}, 'roadm-pmd': rd['pmd'], 'roadm-pdl': rd['pdl']}]
 
@@ -775,7 +821,9 @@ def describe_path(eq, case, path):
             out.append(('amp', (pmd, pdl), f'EAmp {qlit(pmd)} {qlit(pdl)}'))
         elif isinstance(el, Roadm):
             pt = 'add' if isinstance(path[i - 1], Transceiver) else ('drop' if isinstance(path[i + 1], Transceiver) else 'express')
-            bands = roadm_bands(eq, case, topo[el.uid].get('type_variety', 'default'), pt)
+            bound = [b['impairment_id'] for b in topo[el.uid].get('params', {}).get('per_degree_impairments', [])
+                     if b['from_degree'] == path[i - 1].uid and b['to_degree'] == path[i + 1].uid]
+            bands = roadm_bands(eq, case, topo[el.uid].get('type_variety', 'default'), pt, bound[0] if bound else None)
             out.append(('roadm', bands, f"ERoadm {bands_lit(bands, 'roadm-pmd')} {bands_lit(bands, 'roadm-pdl')}"))
         else:
             out.append(('other', None, 'EOther'))
@@ -805,6 +853,13 @@ def drive_path(ctx, case, built, raman_on=False):
     cs = strip(case)
     eq, path = built
     desc = describe_path(eq, case, path)
+    for e in case['topology']['elements']:
+        for bnd in e.get('params', {}).get('per_degree_impairments', []) if e['type'] == 'Roadm' else []:
+            hit = any(path[i].uid == e['uid'] and path[i - 1].uid == bnd['from_degree'] and path[i + 1].uid == bnd['to_degree']
+                      for i in range(1, len(path) - 1))
+            ctx.count('roadm_crossing_bound_to_profile' if hit else 'roadm_binding_not_on_path')
+            if hit and bnd['impairment_id'] == 0:
+                ctx.count('roadm_crossing_bound_to_profile_id0')
     spec = case['spectrum']
     si = make_si(spec)
     check_construction(ctx, case, si)
